@@ -652,6 +652,54 @@ func runSharedWrite(p *Program, r *RuleResult, pkgs map[string]bool) {
 			r.note("%s reaches with shared operands: %s", siteKey, strings.Join(names, ", "))
 		}
 		ord := map[string]int{}
+		// fields written under a lock by the workers must also be read under it by the workers
+		guarded := map[fieldKey]string{}
+		for _, f := range fns {
+			for _, w := range a.writesIn(f) {
+				if w.prot == "mutex held" {
+					if st, ok := w.in.(*ssa.Store); ok {
+						if fa, ok := st.Addr.(*ssa.FieldAddr); ok {
+							if stt := structOf(fa.X.Type()); stt != nil {
+								guarded[fieldKey{stt, fa.Field}] = w.desc
+							}
+						}
+					}
+				}
+			}
+		}
+		for _, f := range fns {
+			D := a.derived[f]
+			held := heldAt(f, D)
+			nr := 0
+			for _, b := range f.Blocks {
+				for _, in := range b.Instrs {
+					u, ok := in.(*ssa.UnOp)
+					if !ok || u.Op != token.MUL {
+						continue
+					}
+					fa, ok := u.X.(*ssa.FieldAddr)
+					if !ok || !D[fa] {
+						continue
+					}
+					stt := structOf(fa.X.Type())
+					if stt == nil {
+						continue
+					}
+					desc, isG := guarded[fieldKey{stt, fa.Field}]
+					if !isG {
+						continue
+					}
+					k := fmt.Sprintf("%s|%s|read %s#%d", siteKey, funcName(f), desc, nr)
+					nr++
+					what := "read of a lock-guarded shared field by a worker happens under the lock: " + desc
+					if held[in] {
+						r.okWhy(k, p.Rel(u.Pos()), what, "mutex held")
+					} else {
+						r.bad(k, p.Rel(u.Pos()), what, "the field is written by other workers under the mutex but read here without it (e.g. indexing a slice whose header another worker is replacing)")
+					}
+				}
+			}
+		}
 		for _, f := range fns {
 			for _, w := range a.writesIn(f) {
 				nW++
